@@ -697,6 +697,8 @@ impl Handler {
             );
             #[cfg(feature = "verif-hooks")]
             crate::verif::hit("handler.second_whoareyou");
+            // The request is no longer active, so the filter no longer expects its response.
+            self.remove_expected_response(src_address);
             self.fail_request(request_call, RequestError::InvalidRemotePacket, true)
                 .await;
             return;
@@ -724,6 +726,8 @@ impl Handler {
             Ok(v) => v,
             Err(e) => {
                 error!(error = ?e, "Could not generate a session");
+                // The request is no longer active, so the filter no longer expects its response.
+                self.remove_expected_response(src_address);
                 self.fail_request(request_call, RequestError::InvalidRemotePacket, true)
                     .await;
                 return;
